@@ -2,21 +2,10 @@
   C16 — helper lemmas: list insertion, the well-formedness invariant and its
   preservation by every API call and by the exec loop body.
 -/
-import IgrisModel.C16.Model
+import IgrisModel.C16.Spec
 namespace Igris.C16
 
 /-! ### sortedness by deadline -/
-
-/-- the list is ordered by non-decreasing `finish()` -/
-def Sorted (tm : Nat → Timer) (l : List Nat) : Prop :=
-  l.Pairwise (fun a b => (tm a).finish ≤ (tm b).finish)
-
-/-- invariant of the manager: no timer is linked twice, the list is sorted by
-deadline, every planned timer has a positive interval -/
-structure WF (m : Mgr) : Prop where
-  nodup : m.lst.Nodup
-  sorted : Sorted m.tm m.lst
-  pos : ∀ i ∈ m.lst, 0 < (m.tm i).interval
 
 theorem Sorted.congr {tm tm' : Nat → Timer} {l : List Nat} (h : ∀ x ∈ l, tm x = tm' x)
     (hs : Sorted tm l) : Sorted tm' l := by
@@ -188,11 +177,6 @@ theorem WF.plan3 {m : Mgr} (h : WF m) (i : Nat) (s iv : Int) (hp : 0 < iv) : WF 
 
 /-! ### callbacks -/
 
-/-- every `plan` a callback makes has a positive interval -/
-def ActsPos (acts : List Action) : Prop := ∀ j s iv, Action.plan j s iv ∈ acts → 0 < iv
-
-def CbPos (cb : Cb) : Prop := ∀ k i, ActsPos (cb k i)
-
 theorem WF.applyAct {m : Mgr} (h : WF m) (a : Action) (ha : ∀ j s iv, a = Action.plan j s iv → 0 < iv) :
     WF (applyAct m a) := by
   cases a with
@@ -253,11 +237,6 @@ theorem runCb_frame (m : Mgr) (acts : List Action) (x : Nat) :
       exact ⟨s, iv, List.mem_cons_of_mem _ h1, h2⟩
     · right; right
       exact ⟨s, iv, List.mem_cons_of_mem _ h1, h2⟩
-
-/-- the timer an action is about -/
-def Action.target : Action → Nat
-  | .unplan j => j
-  | .plan j _ _ => j
 
 theorem applyAct_other (m : Mgr) (a : Action) (i : Nat) (h : a.target ≠ i) :
     (applyAct m a).tm i = m.tm i ∧ (i ∈ (applyAct m a).lst ↔ i ∈ m.lst) := by
@@ -456,9 +435,6 @@ namespace Igris.C16
 
 /-! ### weighted sums over the timer list (termination measure) -/
 
-/-- `Σ_{x ∈ l} f x` -/
-def wsum (f : Nat → Nat) (l : List Nat) : Nat := (l.map f).sum
-
 @[simp] theorem wsum_nil (f : Nat → Nat) : wsum f [] = 0 := rfl
 @[simp] theorem wsum_cons (f : Nat → Nat) (x : Nat) (l : List Nat) : wsum f (x :: l) = f x + wsum f l := by
   simp [wsum]
@@ -534,21 +510,9 @@ theorem filter_ne_comm (l : List Nat) (i j : Nat) :
 
 /-! ### the termination measure -/
 
-/-- how far a timer's deadline lies behind `now` (0 when it is not due) -/
-def lag (now : Int) (t : Timer) : Nat := (now + 1 - t.finish).toNat
-
-/-- sum of the lags of all planned timers -/
-def lagSum (now : Int) (m : Mgr) : Nat := wsum (fun x => lag now (m.tm x)) m.lst
-
 /-- the same without timer `i` -/
 def lagSumEx (now : Int) (i : Nat) (m : Mgr) : Nat :=
   wsum (fun x => lag now (m.tm x)) (m.lst.filter (· != i))
-
-/-- every `plan` a callback makes has its deadline after `now` -/
-def ActsFuture (now : Int) (acts : List Action) : Prop :=
-  ∀ j s iv, Action.plan j s iv ∈ acts → now < s + iv
-
-def CbFuture (now : Int) (cb : Cb) : Prop := ∀ k i, ActsFuture now (cb k i)
 
 theorem lagSum_split (now : Int) (m : Mgr) (i : Nat) (hn : m.lst.Nodup) (hi : i ∈ m.lst) :
     lagSumEx now i m + lag now (m.tm i) = lagSum now m :=
@@ -700,5 +664,206 @@ theorem execLoop_fuel_mono (cb : Cb) (now : Int) (fuel fuel' k : Nat) (m : Mgr)
       · rename_i i hd
         simp only [hd] at h
         rw [ih n' (k + 1) _ h (by omega)]
+
+end Igris.C16
+
+namespace Igris.C16
+
+/-! ### order of the callbacks inside one exec -/
+
+theorem Steps.head {cb : Cb} {now : Int} {k : Nat} {m m' : Mgr} {g : Fire} {fs : List Fire}
+    (h : Steps cb now k m (g :: fs) m') :
+    m.headDue now = some g.id ∧ g.deadline = (m.tm g.id).finish ∧
+      Steps cb now (k + 1) (execBody (cb k g.id) m g.id) fs m' := by
+  cases h with
+  | cons hd tl => exact ⟨hd, rfl, tl⟩
+
+/-- after the loop body for the due head `i` (deadline `d`): every planned timer has a deadline
+`≥ d`, except those the callback itself planned earlier than that -/
+theorem execBody_lower {m : Mgr} {now : Int} {i : Nat} (acts : List Action) (hm : WF m)
+    (hd : m.headDue now = some i) :
+    ∀ x ∈ (execBody acts m i).lst,
+      (m.tm i).finish ≤ ((execBody acts m i).tm x).finish ∨
+      ∃ s iv, Action.plan x s iv ∈ acts ∧ ((execBody acts m i).tm x).finish = s + iv := by
+  obtain ⟨rest, hl, _⟩ := headDue_some hd
+  have hmin := Sorted.head_le (hl ▸ hm.sorted)
+  have hi : i ∈ m.lst := by rw [hl]; simp
+  intro x hx
+  unfold execBody at hx ⊢
+  by_cases hxi : x = i
+  · subst hxi
+    rcases rearm_self (runCb m acts) x (m.tm x) with ⟨h1, h2⟩ | ⟨_, _, h3, _⟩ | ⟨h1, h2, h3, _⟩
+    · rw [h2] at hx; exact absurd hx h1
+    · left; rw [h3, shift_finish]; have := hm.pos x hi; omega
+    · right
+      rcases runCb_frame m acts x with ⟨e, _⟩ | ⟨s, iv, hmem, e, _⟩ | ⟨s, iv, _, e⟩
+      · exact absurd e h2
+      · exact ⟨s, iv, hmem, by rw [h3, e]; rfl⟩
+      · exact absurd h1 e
+  · have ho := rearm_other (runCb m acts) i x (m.tm i) hxi
+    rw [ho.1]
+    have hx1 := ho.2.mp hx
+    rcases runCb_frame m acts x with ⟨e, hmem⟩ | ⟨s, iv, hmem, e, _⟩ | ⟨s, iv, _, e⟩
+    · left; rw [e]; exact hmin x (hl ▸ hmem hx1)
+    · right; exact ⟨s, iv, hmem, by rw [e]; rfl⟩
+    · exact absurd hx1 e
+
+/-- successive callbacks: the deadline does not decrease, unless the first callback itself
+planned the second timer at that earlier deadline -/
+theorem Steps.adjacent {cb : Cb} {now : Int} {k : Nat} {m m' : Mgr} {fs : List Fire}
+    (h : Steps cb now k m fs m') (hcb : CbPos cb) (hm : WF m) :
+    ∀ n f g, fs[n]? = some f → fs[n + 1]? = some g →
+      f.deadline ≤ g.deadline ∨
+      ∃ s iv, Action.plan g.id s iv ∈ cb (k + n) f.id ∧ g.deadline = s + iv := by
+  induction h with
+  | nil => intro n f g h1; simp at h1
+  | @cons k m m' i fs hd tl ih =>
+    intro n f g h1 h2
+    have hm2 := hm.execBody (cb k i) (hcb k i) i
+    cases n with
+    | zero =>
+      simp only [List.getElem?_cons_zero, Option.some.injEq] at h1
+      subst h1
+      simp only [Nat.zero_add, List.getElem?_cons_succ] at h2
+      cases fs with
+      | nil => simp at h2
+      | cons g' fs' =>
+        simp only [List.getElem?_cons_zero, Option.some.injEq] at h2
+        subst h2
+        obtain ⟨hd2, hdl, _⟩ := tl.head
+        obtain ⟨rest, hl, _⟩ := headDue_some hd2
+        have hg : g'.id ∈ (execBody (cb k i) m i).lst := by rw [hl]; simp
+        have := execBody_lower (cb k i) hm hd g'.id hg
+        rw [← hdl] at this
+        simpa using this
+    | succ n' =>
+      simp only [List.getElem?_cons_succ] at h1 h2
+      have := ih hm2 n' f g h1 h2
+      have e : k + 1 + n' = k + (n' + 1) := by omega
+      rw [e] at this
+      exact this
+
+theorem chain_head_le (x : Int) (xs : List Int)
+    (h : ∀ n a b, (x :: xs)[n]? = some a → (x :: xs)[n + 1]? = some b → a ≤ b) : ∀ y ∈ xs, x ≤ y := by
+  induction xs generalizing x with
+  | nil => intro y hy; simp at hy
+  | cons z zs ih =>
+    intro y hy
+    have hxz : x ≤ z := h 0 x z (by simp) (by simp)
+    rcases List.mem_cons.mp hy with e | e
+    · subst e; exact hxz
+    · have := ih z (fun n a b h1 h2 => h (n + 1) a b (by simpa using h1) (by simpa using h2)) y e
+      omega
+
+theorem chain_pairwise (l : List Int)
+    (h : ∀ n a b, l[n]? = some a → l[n + 1]? = some b → a ≤ b) : l.Pairwise (· ≤ ·) := by
+  induction l with
+  | nil => exact List.Pairwise.nil
+  | cons x xs ih =>
+    refine List.pairwise_cons.mpr ⟨chain_head_le x xs h, ih ?_⟩
+    intro n a b h1 h2
+    exact h (n + 1) a b (by simpa using h1) (by simpa using h2)
+
+/-! ### catch-up of a timer no callback touches -/
+
+theorem execBody_untouched_other (m : Mgr) (acts : List Action) (i j : Nat)
+    (hu : ∀ a ∈ acts, a.target ≠ i) (hij : i ≠ j) :
+    (execBody acts m j).tm i = m.tm i ∧ (i ∈ (execBody acts m j).lst ↔ i ∈ m.lst) := by
+  unfold execBody
+  have h1 := runCb_untouched m acts i hu
+  have h2 := rearm_other (runCb m acts) j i (m.tm j) hij
+  exact ⟨h2.1.trans h1.1, h2.2.trans h1.2⟩
+
+theorem execBody_untouched_self (m : Mgr) (acts : List Action) (i : Nat)
+    (hu : ∀ a ∈ acts, a.target ≠ i) (hi : i ∈ m.lst) :
+    (execBody acts m i).tm i = (m.tm i).shift ∧ i ∈ (execBody acts m i).lst := by
+  unfold execBody
+  have h1 := runCb_untouched m acts i hu
+  rcases rearm_self (runCb m acts) i (m.tm i) with ⟨h, _⟩ | ⟨_, _, h3, h4⟩ | ⟨_, h, _, _⟩
+  · exact absurd (h1.2.mpr hi) h
+  · exact ⟨h3, h4⟩
+  · exact absurd h1.1 h
+
+theorem Steps.catch_up {cb : Cb} {now : Int} {k : Nat} {m m' : Mgr} {fs : List Fire}
+    (h : Steps cb now k m fs m') (i : Nat) (hu : Untouched cb i) (hi : i ∈ m.lst) :
+    ∃ n : Nat,
+      (fs.filter (fun f => f.id = i)).map (·.deadline) =
+        (List.range n).map (fun (q : Nat) => (m.tm i).finish + (q : Int) * (m.tm i).interval) ∧
+      m'.tm i = ⟨(m.tm i).start + (n : Int) * (m.tm i).interval, (m.tm i).interval⟩ ∧ i ∈ m'.lst := by
+  induction h with
+  | nil k m => exact ⟨0, by simp, by simp, hi⟩
+  | @cons k m m' j fs hd tl ih =>
+    by_cases hji : j = i
+    · subst hji
+      have hb := execBody_untouched_self m (cb k j) j (hu k j) hi
+      obtain ⟨n, h1, h2, h3⟩ := ih hb.2
+      refine ⟨n + 1, ?_, ?_, h3⟩
+      · simp only [List.filter_cons, decide_true, if_true, List.map_cons, h1, hb.1, shift_finish,
+          shift_interval]
+        rw [List.range_succ_eq_map]
+        simp only [List.map_cons, List.map_map]
+        congr 1
+        · simp
+        · apply List.map_congr_left
+          intro q _
+          simp only [Function.comp, Nat.succ_eq_add_one]
+          have : ((q + 1 : Nat) : Int) * (m.tm j).interval = (q : Int) * (m.tm j).interval + (m.tm j).interval := by
+            rw [Int.natCast_add, Int.add_mul]; simp
+          rw [this]; omega
+      · rw [h2, hb.1]
+        simp only [Timer.shift]
+        have : ((n + 1 : Nat) : Int) * (m.tm j).interval = (n : Int) * (m.tm j).interval + (m.tm j).interval := by
+          rw [Int.natCast_add, Int.add_mul]; simp
+        rw [this]
+        congr 1; omega
+    · have hb := execBody_untouched_other m (cb k j) i j (hu k j) (Ne.symm hji)
+      obtain ⟨n, h1, h2, h3⟩ := ih (hb.2.mpr hi)
+      refine ⟨n, ?_, ?_, h3⟩
+      · have : decide (j = i) = false := by simp [hji]
+        simp only [List.filter_cons, this, Bool.false_eq_true, if_false]
+        rw [h1, hb.1]
+      · rw [h2, hb.1]
+
+/-! ### timers that are not planned -/
+
+theorem Steps.not_mem {cb : Cb} {now : Int} {k : Nat} {m m' : Mgr} {fs : List Fire}
+    (h : Steps cb now k m fs m') (i : Nat) (hnp : ∀ k x s iv, Action.plan i s iv ∉ cb k x)
+    (hi : i ∉ m.lst) : (∀ f ∈ fs, f.id ≠ i) ∧ i ∉ m'.lst := by
+  induction h with
+  | nil => exact ⟨by simp, hi⟩
+  | @cons k m m' j fs hd tl ih =>
+    obtain ⟨rest, hl, _⟩ := headDue_some hd
+    have hj : j ∈ m.lst := by rw [hl]; simp
+    have hji : i ≠ j := fun e => hi (e ▸ hj)
+    have h1 := runCb_not_mem m (cb k j) i (hnp k j) hi
+    have h2 : i ∉ (execBody (cb k j) m j).lst := by
+      unfold execBody
+      rw [(rearm_other _ j i _ hji).2]; exact h1
+    obtain ⟨h3, h4⟩ := ih h2
+    refine ⟨?_, h4⟩
+    intro f hf
+    rcases List.mem_cons.mp hf with e | e
+    · subst e; exact fun e' => hji e'.symm
+    · exact h3 f e
+
+theorem Steps.not_early {cb : Cb} {now : Int} {k : Nat} {m m' : Mgr} {fs : List Fire}
+    (h : Steps cb now k m fs m') : ∀ f ∈ fs, f.deadline ≤ now := by
+  induction h with
+  | nil => simp
+  | @cons k m m' j fs hd tl ih =>
+    obtain ⟨rest, hl, hdue⟩ := headDue_some hd
+    intro f hf
+    rcases List.mem_cons.mp hf with e | e
+    · subst e; exact hdue
+    · exact ih f e
+
+/-- when the loop has exited, no planned timer is due -/
+theorem none_due {m : Mgr} {now : Int} (hm : WF m) (h : m.headDue now = none) :
+    ∀ i ∈ m.lst, now < (m.tm i).finish := by
+  rcases headDue_none h with e | ⟨j, rest, hl, hlt⟩
+  · intro i hi; rw [e] at hi; simp at hi
+  · intro i hi
+    have := Sorted.head_le (hl ▸ hm.sorted) i (hl ▸ hi)
+    omega
 
 end Igris.C16
